@@ -21,9 +21,12 @@ def P0 (Lx Ly Lz : Nat) (x y z : Int) : Prop :=
   (InAp 4 (Lx - 3) x ∧ InAp 2 1 y ∧ InAp 4 (Lz - 4) z ∧ (x + y + z) % 4 = 2) ∨
   (InAp 4 (Lx - 3) x ∧ InAp 4 (Ly - 4) y ∧ InAp (2 * Lz - 4) 1 z ∧ (x + y + z) % 4 = 2)
 
+/-- the number of kept lower triangles of axis 0 along the hole edge `x = y = 3` -/
+def qn (Lx Ly Lz : Nat) : Nat := if 4 ≤ Lx ∧ 4 ≤ Ly then (Lz - 5) / 2 else 0
+
 /-- the kept lower triangles of axis 0 along the hole edge `x = y = 3` -/
-def QR (Lz : Nat) (x y z : Int) : Prop :=
-  x = 2 ∧ y = 2 ∧ 8 ≤ z ∧ z < 8 + 4 * (((Lz - 5) / 2 : Nat) : Int) ∧ (z - 8) % 4 = 0
+def QR (Lx Ly Lz : Nat) (x y z : Int) : Prop :=
+  x = 2 ∧ y = 2 ∧ 8 ≤ z ∧ z < 8 + 4 * ((qn Lx Ly Lz : Nat) : Int) ∧ (z - 8) % 4 = 0
 
 /-- the boxes of the triangles of axis 0 -/
 def B0 (Lx Ly Lz : Nat) (x y z : Int) : Prop :=
@@ -31,9 +34,9 @@ def B0 (Lx Ly Lz : Nat) (x y z : Int) : Prop :=
   (InAp 2 (Lx - 2) x ∧ InAp 0 (Ly - 1) y ∧ InAp 2 (Lz - 1) z ∧ (x + y + z) % 4 = 2) ∨
   (InAp 2 1 x ∧ InAp 4 (Ly - 4) y ∧ InAp 2 1 z ∧ (x + y + z) % 4 = 0) ∨
   (InAp 4 (Lx - 3) x ∧ InAp 2 1 y ∧ InAp 2 1 z ∧ (x + y + z) % 4 = 0) ∨
-  QR Lz x y z
+  QR Lx Ly Lz x y z
 
-theorem ax0_mp (hx : 4 ≤ Lx) (hy : 5 ≤ Ly) (hz : 5 ≤ Lz) (x y z : Int)
+theorem ax0_mp (hx : 3 ≤ Lx) (hy : 4 ≤ Ly) (hz : 5 ≤ Lz) (x y z : Int)
     (h : TS Lx Ly Lz 0 x y z) : B0 Lx Ly Lz x y z := by
   unfold B0 QR
   obtain ⟨_, hv, hp, hc⟩ := h
@@ -66,15 +69,15 @@ theorem ax0_mp (hx : 4 ≤ Lx) (hy : 5 ≤ Ly) (hz : 5 ≤ Lz) (x y z : Int)
       have e : z + 2 + -1 = z + 1 := by omega
       rw [e]
       exact ⟨q1, q2, q3, p4, p5, p6⟩
-  · right; right; right; right; unfold QC at hq; omega
+  · right; right; right; right; unfold QC at hq; unfold qn; rw [if_pos ⟨hq.2.2.2.2.2.1, hq.2.2.2.2.2.2⟩]; omega
 
-theorem ax0_abs (hx : 4 ≤ Lx) (hy : 5 ≤ Ly) (hz : 5 ≤ Lz) (x y z : Int)
+theorem ax0_abs (hx : 3 ≤ Lx) (hy : 4 ≤ Ly) (hz : 5 ≤ Lz) (x y z : Int)
     (h : P0 Lx Ly Lz x y z) : B0 Lx Ly Lz x y z := by
   unfold P0 at h; unfold B0
   right; left
   rcases h with h | h | h | h <;> unfold InAp at h ⊢ <;> omega
 
-theorem ax0_mpr (hx : 4 ≤ Lx) (hy : 5 ≤ Ly) (hz : 5 ≤ Lz) (x y z : Int)
+theorem ax0_mpr (hx : 3 ≤ Lx) (hy : 4 ≤ Ly) (hz : 5 ≤ Lz) (x y z : Int)
     (h : B0 Lx Ly Lz x y z) : TS Lx Ly Lz 0 x y z ∨ P0 Lx Ly Lz x y z := by
   unfold B0 QR at h
   unfold P0
@@ -141,6 +144,13 @@ theorem ax0_mpr (hx : 4 ≤ Lx) (hy : 5 ≤ Ly) (hz : 5 ≤ Lz) (x y z : Int)
       intro hp; apply hp.2.2.1; rw [sgnY_0]; unfold Hole; omega
   · -- the kept lower triangles along the hole edge (3, 3, ·)
     obtain ⟨rfl, rfl, hz1, hz2, hz3⟩ := h
+    have hg : 4 ≤ Lx ∧ 4 ≤ Ly := by
+      unfold qn at hz2
+      by_contra hn
+      rw [if_neg hn] at hz2
+      omega
+    unfold qn at hz2
+    rw [if_pos hg] at hz2
     have hc0 : (2 + 2 + z) % 4 = 0 := by omega
     left
     refine ⟨by decide, ?_, ?_, ?_⟩
@@ -152,13 +162,13 @@ theorem ax0_mpr (hx : 4 ≤ Lx) (hy : 5 ≤ Ly) (hz : 5 ≤ Lz) (x y z : Int)
       · intro hh; unfold Hole at hh; omega
       · intro hh; unfold Hole at hh; omega
     · unfold SelC QC; right; right; right
-      exact ⟨rfl, Or.inr (Or.inr (Or.inr ⟨rfl, rfl, by omega, by omega, by omega, hx, by omega⟩))⟩
+      exact ⟨rfl, Or.inr (Or.inr (Or.inr ⟨rfl, rfl, by omega, by omega, by omega, hg.1, hg.2⟩))⟩
 
-theorem ax0 (hx : 4 ≤ Lx) (hy : 5 ≤ Ly) (hz : 5 ≤ Lz) (x y z : Int) :
+theorem ax0 (hx : 3 ≤ Lx) (hy : 4 ≤ Ly) (hz : 5 ≤ Lz) (x y z : Int) :
     (TS Lx Ly Lz 0 x y z ∨ P0 Lx Ly Lz x y z) ↔ B0 Lx Ly Lz x y z :=
   ⟨fun h => h.elim (ax0_mp hx hy hz x y z) (ax0_abs hx hy hz x y z), ax0_mpr hx hy hz x y z⟩
 
-theorem ax0_disj (hx : 4 ≤ Lx) (hy : 5 ≤ Ly) (hz : 5 ≤ Lz) (x y z : Int)
+theorem ax0_disj (hx : 3 ≤ Lx) (hy : 4 ≤ Ly) (hz : 5 ≤ Lz) (x y z : Int)
     (ht : TS Lx Ly Lz 0 x y z) (hp : P0 Lx Ly Lz x y z) : False := by
   obtain ⟨_, hv, hpt, _⟩ := ht
   unfold PT at hpt
